@@ -47,7 +47,23 @@ def _verify_one(args):
         _hp.REVEAL[0] = (".core.heap." in qualname) or (qualname.startswith("lemma:") and
                                                          "C05" in LEMMAS[qualname[6:]].props and
                                                          qualname[6:] not in ("inj_card",))
-        if qualname.startswith("lemma:"):
+        if qualname.startswith("metric:") or qualname == "registry":
+            from . import vecexpr
+            from specs.metrics import METRICS
+            out["kind"] = "metric"
+            if qualname == "registry":
+                obs = vecexpr.verify_registry(repo, METRICS)
+            else:
+                nm = qualname[7:]
+                obs = vecexpr.verify_metric(repo, nm, METRICS[nm], repo.constants)
+                fname = vecexpr.registry(repo).get(nm)
+                if fname and ("opfython.math.distance." + fname) in repo.functions:
+                    out["hash"] = normalized_hash(repo.function("opfython.math.distance." + fname)[0])
+        elif qualname.startswith("effects:"):
+            from . import effects
+            out["kind"] = "effects"
+            obs = effects.obligations(repo, qualname[8:])
+        elif qualname.startswith("lemma:"):
             lem = LEMMAS[qualname[6:]]
             obs = verify_lemma(repo, lem)
             out["kind"] = "lemma"
@@ -174,6 +190,8 @@ if __name__ == "__main__":
         n = len(r["obligations"])
         ok = sum(1 for o in r["obligations"] if o["status"] == "unsat")
         print("%-50s %3d/%3d  %.2fs %s" % (r["function"], ok, n, r["seconds"], (r["error"][0] + ": " + r["error"][1][-700:]) if r["error"] else ""))
+        if r["error"]:
+            bad += 1
         for o in r["obligations"]:
             if o["status"] != "unsat":
                 bad += 1
